@@ -34,10 +34,10 @@ func (o *Ob) ID() string { return o.Prop + "/" + o.Rule + "/" + o.Key }
 
 // Report collects obligations and measured counters for one property on one configuration.
 type Report struct {
-	Prop   string         `json:"property"`
-	Config string         `json:"config"`
-	Obs    []*Ob          `json:"obligations"`
-	Counts map[string]int `json:"counts"`
+	Prop   string            `json:"property"`
+	Config string            `json:"config"`
+	Obs    []*Ob             `json:"obligations"`
+	Counts map[string]int    `json:"counts"`
 	Rules  map[string]string `json:"rules"` // rule -> one-line description
 	seen   map[string]*Ob
 }
